@@ -210,9 +210,13 @@ func newInter(kind, dir string) (oras.Target, func(), error) {
 			return nil, nil, err
 		}
 		return s, func() { s.Close() }, nil
-	case "remote":
+	case "remote", "remotemin":
 		const host = "registry.round.test"
-		reg := regfake.New(host, regfake.Profile{Referrers: true, DigestHdr: true, Range: true, Mount: true})
+		prof := regfake.Profile{Referrers: true, DigestHdr: true, Range: true, Mount: true}
+		if kind == "remotemin" {
+			prof = regfake.Profile{}
+		}
+		reg := regfake.New(host, prof)
 		repo, err := remote.NewRepository(host + "/round/trip")
 		if err != nil {
 			return nil, nil, err
@@ -291,10 +295,8 @@ func pipeline(ctx context.Context, c Case, base, name, path string, tamper, used
 	if c.Opts.IgnoreNoName {
 		// unnamed content (the manifest and its config) is discarded: nothing is left to tag, the graph is copied
 		dst.IgnoreNoName = true
-		var root ocispec.Descriptor
-		if root, err = inter.Resolve(ctx, "v1"); err == nil {
-			err = oras.CopyGraph(ctx, inter, dst, root, oras.DefaultCopyGraphOptions)
-		}
+		// (the root is the descriptor PackManifest returned: resolving a tag needs a digest header on some registries, F17)
+		err = oras.CopyGraph(ctx, inter, dst, man, oras.DefaultCopyGraphOptions)
 		return
 	}
 	_, err = oras.Copy(ctx, inter, "v1", dst, "v1", oras.DefaultCopyOptions)
